@@ -9,8 +9,8 @@ TRUST = ("Trusted base: rustc nightly front end (type check, MIR construction, c
 
 CLAIMED = {
     "C08": dict(
-        technique="static analysis: number-theoretic certificates on compiler-evaluated constants + interval abstract interpretation of MIR (type invariant value<PRIME at every constructor site) + operator census on padded bit arrays",
-        text="Every PrimeField modulus is certified prime and every GaloisField polynomial irreducible of degree BITS (so the types are fields), the value<PRIME representation invariant is proved inductive over every constructor site of each prime-field newtype for all inputs (incl. 0, p-1, u128::MAX), no arithmetic in those bodies can overflow, padded bit arrays keep padding clean under Not, accumulator interval and DZKP constants are checked. Field axioms then follow from modular arithmetic on canonical representatives (argument, not machine-checked).",
+        technique="static analysis: number-theoretic certificates on compiler-evaluated constants + interval abstract interpretation of MIR (type invariant value<PRIME at every constructor site) + operator census on padded bit arrays + who-may-call census of the inversion routines",
+        text="Every PrimeField modulus is certified prime and every GaloisField polynomial irreducible of degree BITS (so the types are fields), the value<PRIME representation invariant is proved inductive over every constructor site of each prime-field newtype for all inputs (incl. 0, p-1, u128::MAX), no arithmetic in those bodies can overflow, padded bit arrays keep padding clean under Not, accumulator interval and DZKP constants are checked; multiplicative inverses are taken only by a frozen set of users whose argument is a non-zero constant or for which zero is refused (no derived helper divides by something an input can make vanish, e.g. a Lagrange row at an input point). Field axioms then follow from modular arithmetic on canonical representatives (argument, not machine-checked).",
         ref="§3 C08"),
 }
 
